@@ -56,6 +56,34 @@ type kcase struct {
 	Release []int    `json:"release_order,omitempty"`
 	Writes  []kwrite `json:"writes"`
 	Order    int64    `json:"model_order_seed"` // the order in which the model is told about the items
+	// Times: how writes are stamped.  "": every reading of the injected clock is a new instant.  "frozen": the
+	// injected clocks stand still (the initial value and every write carry the SAME change time).
+	// "same-write-time": the collection's clock stands still and every write to the resource.Value carries the same
+	// resource.WithWriteTime (a device stamping a batch).
+	Times string `json:"write_times,omitempty"`
+}
+
+// stamp is the one instant of "same-write-time".
+const stamp = 7
+
+// wopts: the write options every write to the resource.Value of the case carries.
+func (c kcase) wopts() []resource.WriteOption {
+	if c.Times == "same-write-time" {
+		return []resource.WriteOption{resource.WithWriteTime(time.Unix(stamp, 0))}
+	}
+	return nil
+}
+
+// vtime: the change time of the k-th write (k = 1, 2, ...) to the resource.Value of the case (its initial
+// value is stamped 0).
+func (c kcase) vtime(k int64) int64 {
+	switch c.Times {
+	case "frozen":
+		return 0
+	case "same-write-time":
+		return stamp
+	}
+	return k
 }
 
 func (c kcase) enc() string {
@@ -427,7 +455,8 @@ func (c kcase) releaseOrder() []int {
 func (c kcase) run() kout {
 	var out kout
 	panicked, pmsg := lib.Catch(func() {
-		copts := []resource.Option{resource.WithClock(&tickClock{})}
+		copts := []resource.Option{resource.WithClock(&tickClock{manual: c.Times != ""})}
+		wo := c.wopts()
 		if c.Equiv {
 			copts = append(copts, resource.WithNoDuplicates())
 		}
@@ -576,11 +605,11 @@ func (c kcase) run() kout {
 			}
 			w := w
 			tick++
-			vclock.set(tick)
-			vtick[i] = tick
+			vclock.set(c.vtime(tick))
+			vtick[i] = c.vtime(tick)
 			i := i
 			vgates[i] = park.start("pending Set", func() error {
-				nv, err := val.Set(decodeRoot(c.Root, w.Hex))
+				nv, err := val.Set(decodeRoot(c.Root, w.Hex), wo...)
 				if err == nil {
 					stored = append(stored, kept{nv, proto.Clone(nv)})
 					vset[i] = proto.Clone(nv)
@@ -609,19 +638,19 @@ func (c kcase) run() kout {
 			}
 			w := w
 			tick++
-			vclock.set(tick)
+			vclock.set(c.vtime(tick))
 			step("Set", func() error {
-				nv, err := val.Set(decodeRoot(c.Root, w.Hex))
+				nv, err := val.Set(decodeRoot(c.Root, w.Hex), wo...)
 				if err == nil {
 					stored = append(stored, kept{nv, proto.Clone(nv)})
-					out.VRaw = append(out.VRaw, kvalue{Time: tick, Val: proto.Clone(nv)})
+					out.VRaw = append(out.VRaw, kvalue{Time: c.vtime(tick), Val: proto.Clone(nv)})
 				}
 				return err
 			})
 		}
 		out.VGetEnd, out.VGetEndRaw = clone(val.Get(c.buildOpts(c.Options)...)), clone(val.Get())
-		vEnd := tick
-		vclock.set(tick + 1)
+		vEnd := tick + stamp // later than every write of the case, whatever its stamp
+		vclock.set(vEnd + 1)
 		step("Set", func() error { _, err := val.Set(sentinelMsg(c.Root)); return err })
 		cancel()
 		fin := make(chan struct{})
@@ -768,8 +797,12 @@ func (c kcase) schedLines() []string {
 		eq = "E"
 	}
 	tail := strings.Join(steps, " ")
+	op := "csched"
+	if c.Times != "" {
+		op = "cschedz" // the collection's clock stands still
+	}
 	mkAt := func(o, mode string, at int) string {
-		return strings.TrimSpace(fmt.Sprintf("csched %d %s %s %s %d %s", ty, o, mode, eq, at, tail))
+		return strings.TrimSpace(fmt.Sprintf("%s %d %s %s %s %d %s", op, ty, o, mode, eq, at, tail))
 	}
 	mk := func(o, mode string) string { return mkAt(o, mode, npre) }
 	o := "B1"
@@ -789,7 +822,7 @@ func (c kcase) schedLines() []string {
 		if w.Op != "delete" {
 			tick++
 			vt[i] = tick
-			vsteps = append(vsteps, "s", w.Text, fmt.Sprint(tick))
+			vsteps = append(vsteps, "s", w.Text, fmt.Sprint(c.vtime(int64(tick))))
 			parked = append(parked, i)
 			vpre++
 		}
@@ -806,7 +839,7 @@ func (c kcase) schedLines() []string {
 	for _, w := range c.Writes {
 		if w.Op != "delete" {
 			tick++
-			vsteps = append(vsteps, "s", w.Text, fmt.Sprint(tick), "p", "0")
+			vsteps = append(vsteps, "s", w.Text, fmt.Sprint(c.vtime(int64(tick))), "p", "0")
 		}
 	}
 	vl := strings.TrimSpace(fmt.Sprintf("vsched %d %s %s %s %d %s", ty, o, eq, init, vpre, strings.Join(vsteps, " ")))
@@ -1152,6 +1185,13 @@ func genCollCase(g *mt.Gen) kcase {
 		c.Release = idx
 	}
 	c.Writes = genWrites(g.R.Intn(6), c.PullID)
+	// a third of the cases: time does not tell the writes apart
+	switch g.R.Intn(6) {
+	case 0:
+		c.Times = "frozen"
+	case 1:
+		c.Times = "same-write-time"
+	}
 	return c
 }
 
@@ -1194,6 +1234,14 @@ func seededCollCases() []kcase {
 		} {
 			out = append(out, kcase{Root: "TestAllTypes", CollRead: true, Items: items[:1], Options: os, PullID: "x", Pending: p.pend, Release: p.rel, Order: 3})
 			out = append(out, kcase{Root: "TestAllTypes", CollRead: true, Items: items, Options: os, PullID: "x", Pending: p.pend, Release: p.rel, Writes: p.then, Order: 4})
+		}
+	}
+	// writes that time does not tell apart (a clock that stands still / one WithWriteTime for all): the reads
+	// repeated after them must show what is stored then
+	for _, times := range []string{"frozen", "same-write-time"} {
+		for _, os := range [][]string{{"M/default_string"}, {"I4", "M/default_foreign_message.d"}, {"P/default_int32/default_string"}, {}} {
+			out = append(out, kcase{Root: "TestAllTypes", CollRead: true, Items: items[:1], Options: os, PullID: "x", Writes: writes[:1], Order: 5, Times: times})
+			out = append(out, kcase{Root: "TestAllTypes", CollRead: true, Items: items, Options: os, PullID: "x", Pending: []kwrite{upd("x", h3, t3)}, Release: []int{0}, Writes: writes[:1], Order: 6, Times: times})
 		}
 	}
 	return out
